@@ -613,12 +613,17 @@ func genHistDoc(r *Run, nd bool, big bool) []byte {
 
 // parseNew parses doc into a new object; returns nil if the document is (correctly) rejected.
 func parseNew(r *Run, doc []byte, cfg parseCfg, what string) *simObj {
+	return parseNewReuse(r, doc, cfg, what, nil)
+}
+
+// parseNewReuse is parseNew with a reuse argument (an object with a past).
+func parseNewReuse(r *Run, doc []byte, cfg parseCfg, what string, reuse *simdjson.ParsedJson) *simObj {
 	buf := &simBuf{b: append([]byte(nil), doc...)}
 	ref := refFor(doc, cfg.ND)
 	var pj *simdjson.ParsedJson
 	var perr error
 	err := safely(func() error {
-		pj, perr = doParse(buf.b, nil, cfg)
+		pj, perr = doParse(buf.b, reuse, cfg)
 		return nil
 	})
 	if err != nil {
